@@ -92,6 +92,13 @@ def apply_impl(c, holders, op):
       setattr(c, op[1], 1)
     except AttributeError:
       raise ref.RefErr('noattrset')
+  elif kind == 'peek':
+    # code running inside a save_and_restore-wrapped function looks at the configuration through every view
+    for k, hd in list(holders.items()):
+      _try(lambda hd=hd: hd.value)
+      _try(lambda k=k: c[k])
+      _try(lambda k=k: getattr(c, k))
+    _try(c._asdict)  # pylint: disable=protected-access
   elif kind == 'sar':
 
     def body():
@@ -216,6 +223,8 @@ def alphabet(tier):
       ['sar', [['a', 8]], [], F],
       ['sar', [], [['load', [['a', 9]], T, F, 'kw']], T],
       ['sar', [['b', 8]], [['reset']], F],
+      ['sar', [], [['load', [['a', 9]], T, F, 'kw'], ['peek']], F],
+      ['sar', [['a', 8]], [['peek']], T],
       ['sar', [], [['declare', 'b', 0], ['load', [['b', 4]], T, F, 'kw']], T],
   ]
   if tier == 'thorough':
